@@ -225,14 +225,9 @@ func VerifHarness_StepPreservesAgreement() {
 		c.entries[zzIDs[i]] = ce
 	}
 	zzCompare(tl, c)
-	steps := 1
-	if zz.Thorough() {
-		steps = 2
-	}
-	for s := 0; s < steps; s++ {
-		zzStep(tl, c)
-		zzCompare(tl, c)
-	}
+	// one step is the inductive argument; the thorough tier differs in the sequences below
+	zzStep(tl, c)
+	zzCompare(tl, c)
 	zz.Reach("step")
 }
 
@@ -246,11 +241,7 @@ func VerifHarness_ModelMatchesClient() {
 	}
 	c := &zzClient{protocol: protocols[zz.Choose(len(protocols))], entries: map[uuid.UUID]*zzCEntry{}}
 	tl := New(&zzViewer{c})
-	steps := 2
-	if zz.Thorough() {
-		steps = 3
-	}
-	for s := 0; s < steps; s++ {
+	for s := 0; s < 2; s++ {
 		zzStep(tl, c)
 		zzCompare(tl, c)
 	}
